@@ -155,7 +155,7 @@ impl Prop for C11 {
         "exploration"
     }
     fn rule(&self) -> String {
-        "run = a finalized archive written by the library, whose layer plaintexts are obtained from the independent format model (decrypt / decompress by refmla); a layer reader stack is built exactly as `mlar info` builds it (header parsed, raw layer pinned after the header, then 0, 1 or 2 of the enabled layers) over the simulated source, and a seeded history of 30 operations {seek from start / current / end to any target in [0, len] (biased to 0, len, len-k, chunk and block edges +-2), stream_position, read of 0/1/unit/unit+1/random bytes} is played against a std::io::Cursor over the same plaintext: identical positions, identical bytes, a read returns >= 1 byte unless asked for 0 or at the end. The 2 (thorough: 8) runs after the sweep stream a file of 2^32 + a few MiB zero bytes through the compression layer (alone / over encryption, production constants) and play 40-step histories with targets and relative distances around 2^31, 2^32, block edges and both ends against a model that holds the first and last blocks (decoded by the format model) and zeros in between. The first 1800 runs sweep the content length 0..299 on s0 (all four layer sets) and s1 (E, CE) so that every residue of the plaintext length modulo CHUNK (and lengths below one tag, exact multiples) and modulo BLOCK occurs. distinct_nontrivial = distinct (variant, layers, depth, length class vs CHUNK, vs BLOCK, op kinds seen) signatures.".into()
+        "run = a finalized archive written by the library, whose layer plaintexts are obtained from the independent format model (decrypt / decompress by refmla); a layer reader stack is built exactly as `mlar info` builds it (header parsed, raw layer pinned after the header, then 0, 1 or 2 of the enabled layers) over the simulated source, and a seeded history of 30 operations (250 on the one scaled run in 40 whose plaintext spans 260..700 blocks or more than 65535 chunks) {seek from start / current / end to any target in [0, len] (biased to 0, len, len-k, chunk and block edges +-2), stream_position, read of 0/1/unit/unit+1/random bytes} is played against a std::io::Cursor over the same plaintext: identical positions, identical bytes, a read returns >= 1 byte unless asked for 0 or at the end. The 2 (thorough: 8) runs after the sweep stream a file of 2^32 + a few MiB zero bytes through the compression layer (alone / over encryption, production constants) and play 40-step histories with targets and relative distances around 2^31, 2^32, block edges and both ends against a model that holds the first and last blocks (decoded by the format model) and zeros in between. The first 1800 runs sweep the content length 0..299 on s0 (all four layer sets) and s1 (E, CE) so that every residue of the plaintext length modulo CHUNK (and lengths below one tag, exact multiples) and modulo BLOCK occurs. distinct_nontrivial = distinct (variant, layers, depth, length class vs CHUNK, vs BLOCK, op kinds seen) signatures.".into()
     }
     fn assumptions(&self) -> Vec<String> {
         vec!["seek targets are confined to [0, len] as the property states; a read may return fewer bytes than asked".into()]
@@ -169,6 +169,7 @@ impl Prop for C11 {
     fn make(&self, seed: u64, run: u64, tier: Tier) -> Case {
         let mut rng = Rng::derive(seed, "C11", run, "gen");
         let mut case;
+        let mut long_hist = false;
         if run >= SYS_S0 + SYS_S1 && run < SYS_S0 + SYS_S1 + huge_runs(tier) {
             // one file of 2^32 + a few MiB zero bytes streamed through the compression layer (alone, or over encryption)
             let k = run - SYS_S0 - SYS_S1;
@@ -211,7 +212,17 @@ impl Prop for C11 {
                     align_stream(&mut ops, vc.chunk as usize, *rng.pick(&[0usize, 0, 1, 15, 16, 17, vc.chunk as usize - 1]));
                 }
             }
+            if !big && rng.chance(1, 40) {
+                // scaled builds: hundreds of blocks / more than 65535 chunks under one layer stack, and a long history
+                let n = if cfg.enc() && !cfg.comp() && rng.chance(1, 2) { 70_000 * vc.chunk as usize + rng.usize_below(100) } else { rng.range(260, 700) as usize * vc.block as usize + rng.usize_below(vc.block as usize) };
+                ops = vec![WOp::Add { name: Name::lit("long"), data: Data::Rand { n, seed: rng.u64() }, src: Src::exact() }, WOp::Finalize];
+                cfg.level = cfg.level.min(4);
+                long_hist = true;
+            }
             case = Case::new("C11", cfg, ops);
+        }
+        if long_hist {
+            case.params.insert("hist_len".into(), 250);
         }
         let nl = case.cfg.enc() as usize + case.cfg.comp() as usize;
         case.params.insert("depth".into(), rng.range(0, nl as u64) as i64);
@@ -323,7 +334,7 @@ impl Prop for C11 {
         let lops = if !case.lops.is_empty() {
             case.lops.clone()
         } else {
-            gen_hist(&mut Rng::new(case.param("hist_seed", 1) as u64), len, 30, unit)
+            gen_hist(&mut Rng::new(case.param("hist_seed", 1) as u64), len, case.param("hist_len", 30) as usize, unit)
         };
         let rcfg = ReadCfg::for_cfg(&case.cfg);
         let out = s.layers(Rc::new(image.clone()), depth, &rcfg, len, &lops);
